@@ -165,6 +165,29 @@ pub fn run(cfg: &Cfg, rng: &mut Rng, out: &mut Out) {
             }
         }
     }
+    // lattice sweep: small integer lattices (many cospherical / coplanar subsets: the first attempt
+    // often fails and the shuffled retries run) through EVERY constructor family x retry policy
+    for d in 3..=4usize {
+        for rep in 0..(if thorough { 6 } else { 2 }) {
+            let side: i64 = if d == 3 { 3 } else { 2 };
+            let mut all: Vec<Vec<i64>> = vec![vec![]];
+            for _ in 0..d { all = all.into_iter().flat_map(|p| (0..side).map(move |x| { let mut q = p.clone(); q.push(x); q })).collect(); }
+            rng.shuffle(&mut all);
+            let keep = if rep == 0 { all.len() } else { (d + 6 + rng.below(8) as usize).min(all.len()) };
+            all.truncate(keep);
+            let ps = gens::PointSet { family: "lattice_sweep", pts: gens::to_f(&all, 1.0, 0.0), gp: false };
+            for api in [0u8, 1, 2] {
+                for retry in [0u8, 1, 2] {
+                    let o = Opts { order: [0u8, 3][(rep + api as usize) % 2], dedup: 0, simplex: 0, retry };
+                    let id = format!("lt{d}_{rep}_{api}_{retry}");
+                    match d {
+                        3 => one::<3>(&id, &ps, [1usize, 0][rep % 2], false, &o, api, rng, out),
+                        _ => one::<4>(&id, &ps, [1usize, 0][rep % 2], false, &o, api, rng, out),
+                    }
+                }
+            }
+        }
+    }
     // dedup sweep: every dedup policy meets duplicates, near-duplicates and coordinates that are
     // huge relative to the tolerance (|c| / tol beyond 2^53 and 2^63: the fallback paths), through
     // the statistics constructor so that every input vertex must be accounted for
